@@ -254,5 +254,18 @@ def ladder_circuit(draw, max_sections=4):
     return {'components': comps}
 
 
-def any_dynamic(**kw):
-    return st.one_of(dynamic_circuit(**kw), ladder_circuit())
+def _unit_family(spec, kc, kl):
+    # the same circuit in nF/pF and uH/nH: relative spread (hence conditioning) unchanged, absolute sizes far below 1e-8
+    for c in spec['components']:
+        if c['kind'] == 'capacitor':
+            c['args']['C'] = float(f"{c['args']['C'] * kc:.6g}")
+        elif c['kind'] == 'inductance':
+            c['args']['L'] = float(f"{c['args']['L'] * kl:.6g}")
+    return spec
+
+
+@st.composite
+def any_dynamic(draw, **kw):
+    spec = draw(st.one_of(dynamic_circuit(**kw), ladder_circuit()))
+    kc, kl = draw(st.sampled_from([(1.0, 1.0)] * 5 + [(1e-5, 1e-5), (1e-3, 1e-6), (1e-6, 1.0), (1.0, 1e-6)]))
+    return _unit_family(spec, kc, kl) if (kc, kl) != (1.0, 1.0) else spec
